@@ -74,34 +74,60 @@ class _Oracle:
         return sum(len(b) for b in self.batches)
 
 
-def _problem(n, rho, r0, kind, tseed, yseed):
+def _problem(n, rho, r0, kind, tseed, yseed, opt=None):
+    """opt (all optional): scale (factor on the objective; 0 -> the zero objective), order ('F' / 'V' layout of the
+    cores of the start); r0 may be an int or a rank profile."""
+    opt = opt or {}
     T = gen.dense(gen.tt(n, rho, tseed, 'gauss'))
-    Y0 = gen.tt(n, r0, yseed, kind)
+    if 'scale' in opt:
+        T = T * float(opt['scale'])
+    Y0 = gen.tt(n, r0, yseed, kind, order=opt.get('order') or 'C')
     return T, Y0
 
 
-def _vld(T, n, seed, cnt=9):
+def _xkw(opt):
+    """Keyword arguments of cross named in opt (tau, tau0, k0)."""
+    return {key: opt[key] for key in ('tau', 'tau0', 'k0') if key in (opt or {})}
+
+
+def _pre(T, n, opt, seed):
+    """Pre-filled cache (opt['prefill'] true pairs index -> value) or None."""
+    cnt = (opt or {}).get('prefill')
+    if not cnt:
+        return None
+    g = gen.rng('C06pre', seed)
+    pre = {}
+    for _ in range(cnt):
+        key = tuple(int(g.integers(0, k)) for k in n)
+        pre[key] = float(T[key])
+    return pre
+
+
+def _vld(T, n, seed, cnt=9, opt=None):
     g = gen.rng('C06vld', seed)
     I = np.stack([g.integers(0, k, size=cnt) for k in n], axis=1)
+    if (opt or {}).get('vform') == 'list':
+        return I.tolist(), [float(v) for v in T[tuple(I.T)]]
     return I, T[tuple(I.T)]
 
 
-def _run(T, Y0, cache, none_at=None, cb_at=None, cb_ret=True, **kw):
+def _run(T, Y0, cache, none_at=None, cb_at=None, cb_ret=True, cb_else=False, pre=None, **kw):
+    """cache: False (none) / True (a dictionary: empty, or a copy of the pre-filled `pre`)."""
     f = _Oracle(T, none_at)
     info, log = {}, []
 
     def cb(Y, info_, opts):
         log.append(dict(nswp=info_['nswp'], e=info_['e'], e_vld=info_['e_vld'], m=info_['m'],
                         m_cache=info_['m_cache'], calls=len(f.batches), stop=info_['stop']))
-        return cb_ret if (cb_at is not None and info_['nswp'] == cb_at) else False
+        return cb_ret if (cb_at is not None and info_['nswp'] == cb_at) else cb_else
 
-    Y = teneva.cross(f, Y0, info=info, cache={} if cache else None, cb=cb, **kw)
+    Y = teneva.cross(f, Y0, info=info, cache=(dict(pre) if pre else {}) if cache else None, cb=cb, **kw)
     return Y, info, f, log
 
 
-def _model(U, cache, m=None, none_at=None):
-    """Independent model of the evaluation contract (see module docstring)."""
-    seen, batches, ev, hits, calls, stop = set(), [], 0, 0, 0, None
+def _model(U, cache, m=None, none_at=None, pre=None):
+    """Independent model of the evaluation contract (see module docstring); pre: pre-filled cache keys."""
+    seen, batches, ev, hits, calls, stop = set(pre or ()), [], 0, 0, 0, None
     for Uj in U:
         if cache:
             keep = [i for i, row in enumerate(Uj) if tuple(row.tolist()) not in seen]
@@ -147,8 +173,8 @@ def _contract(Y, info, f, n, m=None, cache=False):
         return f"info['m'] = {info.get('m')} but {evaluated} indices were evaluated (stop {info.get('stop')})"
     if info.get('stop') not in STOPS:
         return f"stop reason {info.get('stop')!r} is not documented"
-    if info.get('m_max') != m:
-        return f"info['m_max'] = {info.get('m_max')} for m = {m}"
+    if info.get('m_max') != (None if m is None else int(m)) or isinstance(info.get('m_max'), float):
+        return f"info['m_max'] = {info.get('m_max')!r} for m = {m!r}"
     if cache:
         rows = [tuple(r.tolist()) for b in f.batches for r in b]
         if len(set(rows)) != len(rows):
@@ -174,25 +200,32 @@ def _reference(T, Y0, kw):
 
 
 @clause('C06.cross.budget_every_m', funcs=FUNCS)
-def budget_every_m(n, rho, r0, kind, dr_min, dr_max, nswp, tseed, yseed, cache, part, parts):
-    """Every budget m (those with m % parts == part): domain, asked <= m, counters, maximal prefix, stop reason."""
-    T, Y0 = _problem(n, rho, r0, kind, tseed, yseed)
-    kw = dict(nswp=nswp, dr_min=dr_min, dr_max=dr_max, m_cache_scale=HUGE)
+def budget_every_m(n, rho, r0, kind, dr_min, dr_max, nswp, tseed, yseed, cache, part, parts, opt=None):
+    """Every budget m (those with m % parts == part): domain, asked <= m, counters, maximal prefix, stop reason.
+    opt: see _problem / _xkw / _pre; mform = 'float' / 'np' passes the budget as float (the form used in the
+    library's own demos, m=1.E+4) / as NumPy integer."""
+    T, Y0 = _problem(n, rho, r0, kind, tseed, yseed, opt)
+    kw = dict(nswp=nswp, dr_min=dr_min, dr_max=dr_max, m_cache_scale=HUGE, **_xkw(opt))
+    pre = _pre(T, n, opt, tseed) if cache else None
+    mform = (opt or {}).get('mform')
     U, iref, _ = _reference(T, Y0, kw)
     if iref['stop'] != 'nswp' or len(U) != 2 * len(n) * nswp:
         return FAIL(f"reference run: stop {iref['stop']}, {len(U)} requests, expected {2 * len(n) * nswp}")
-    full = _model(U, cache)
+    full = _model(U, cache, pre=pre)
     tot = full['m']
     tested = 0
     for m in range(1, tot + 2):
         if m % parts != part:
             continue
         tested += 1
-        Y, info, f, log = _run(T, Y0, cache, m=m, **kw)
+        m_arg = float(m) if mform == 'float' else (np.int64(m) if mform == 'np' else m)
+        Y, info, f, log = _run(T, Y0, cache, m=m_arg, pre=pre, **kw)
         msg = _contract(Y, info, f, n, m, cache)
         if msg:
             return FAIL(f'm = {m} of {tot}: {msg}')
-        want = _model(U, cache, m=m)
+        if pre and any(tuple(r.tolist()) in pre for b in f.batches for r in b):
+            return FAIL(f'm = {m}: a pre-filled index was evaluated')
+        want = _model(U, cache, m=m, pre=pre)
         msg = _same_batches(f.batches, want['batches'])
         if msg:
             return FAIL(f'm = {m} of {tot}: {msg} (stop {info["stop"]})')
@@ -209,20 +242,21 @@ def budget_every_m(n, rho, r0, kind, dr_min, dr_max, nswp, tseed, yseed, cache, 
 
 
 @clause('C06.cross.func_none_every_k', funcs=FUNCS)
-def func_none_every_k(n, rho, r0, kind, dr_min, dr_max, nswp, tseed, yseed, cache):
+def func_none_every_k(n, rho, r0, kind, dr_min, dr_max, nswp, tseed, yseed, cache, opt=None):
     """Objective returns None at its k-th call, every k: stop 'func', k calls, counters, well-formed result."""
-    T, Y0 = _problem(n, rho, r0, kind, tseed, yseed)
-    kw = dict(nswp=nswp, dr_min=dr_min, dr_max=dr_max, m_cache_scale=HUGE)
+    T, Y0 = _problem(n, rho, r0, kind, tseed, yseed, opt)
+    kw = dict(nswp=nswp, dr_min=dr_min, dr_max=dr_max, m_cache_scale=HUGE, **_xkw(opt))
+    pre = _pre(T, n, opt, tseed) if cache else None
     U, iref, _ = _reference(T, Y0, kw)
-    ncalls = len(_model(U, cache)['batches'])
+    ncalls = len(_model(U, cache, pre=pre)['batches'])
     for k in range(1, ncalls + 1):
-        Y, info, f, log = _run(T, Y0, cache, none_at=k, **kw)
+        Y, info, f, log = _run(T, Y0, cache, none_at=k, pre=pre, **kw)
         msg = _contract(Y, info, f, n, None, cache)
         if msg:
             return FAIL(f'None at call {k} of {ncalls}: {msg}')
         if info['stop'] != 'func':
             return FAIL(f"None at call {k} of {ncalls}: stop {info['stop']!r}")
-        want = _model(U, cache, none_at=k)
+        want = _model(U, cache, none_at=k, pre=pre)
         msg = _same_batches(f.batches, want['batches'])
         if msg:
             return FAIL(f'None at call {k}: {msg}')
@@ -234,11 +268,17 @@ def func_none_every_k(n, rho, r0, kind, dr_min, dr_max, nswp, tseed, yseed, cach
 
 
 @clause('C06.cross.cb_every_sweep', funcs=FUNCS)
-def cb_every_sweep(n, rho, r0, kind, dr_min, dr_max, nswp, tseed, yseed, cache):
-    """Callback returns True at sweep s, every s: stop 'cb' right after that sweep."""
-    T, Y0 = _problem(n, rho, r0, kind, tseed, yseed)
+def cb_every_sweep(n, rho, r0, kind, dr_min, dr_max, nswp, tseed, yseed, cache, opt=None):
+    """Callback returns True at sweep s, every s: stop 'cb' right after that sweep; a callback that returns
+    False / None / 0 (opt['cb_else'], default False) never stops the run."""
+    T, Y0 = _problem(n, rho, r0, kind, tseed, yseed, opt)
     d = len(n)
-    kw = dict(nswp=nswp, dr_min=dr_min, dr_max=dr_max, m_cache_scale=HUGE)
+    kw = dict(nswp=nswp, dr_min=dr_min, dr_max=dr_max, m_cache_scale=HUGE, **_xkw(opt))
+    cb_else = {'none': None, 'zero': 0}.get((opt or {}).get('cb_else'), False)
+    kw['cb_else'] = cb_else
+    # DOUBTFUL (disabled, see the report): a callback returning numpy.True_ (e.g. `return info['e'] < 1e-3`, the
+    # reported values are NumPy floats) does NOT stop the run, the library tests `cb(...) is True`; the docstring
+    # says "returns a true value", the property text "returned True".  cb_ret=np.True_ would be the case.
     U, iref, _ = _reference(T, Y0, kw)
     for s in range(1, nswp + 1):
         Y, info, f, log = _run(T, Y0, cache, cb_at=s, **kw)
@@ -264,11 +304,11 @@ def cb_every_sweep(n, rho, r0, kind, dr_min, dr_max, nswp, tseed, yseed, cache):
 
 
 @clause('C06.cross.stop_nswp', funcs=FUNCS)
-def stop_nswp(n, rho, r0, kind, dr_min, dr_max, nswp, tseed, yseed, cache):
+def stop_nswp(n, rho, r0, kind, dr_min, dr_max, nswp, tseed, yseed, cache, opt=None):
     """nswp alone: 'nswp' after exactly nswp sweeps (callback calls, 2*d requests per sweep)."""
-    T, Y0 = _problem(n, rho, r0, kind, tseed, yseed)
+    T, Y0 = _problem(n, rho, r0, kind, tseed, yseed, opt)
     d = len(n)
-    Y, info, f, log = _run(T, Y0, cache, nswp=nswp, dr_min=dr_min, dr_max=dr_max, m_cache_scale=HUGE)
+    Y, info, f, log = _run(T, Y0, cache, nswp=nswp, dr_min=dr_min, dr_max=dr_max, m_cache_scale=HUGE, **_xkw(opt))
     msg = _contract(Y, info, f, n, None, cache)
     if msg:
         return FAIL(msg)
@@ -281,7 +321,7 @@ def stop_nswp(n, rho, r0, kind, dr_min, dr_max, nswp, tseed, yseed, cache):
     if nswp == 0:
         # documented: only the maxvol pre-iteration is performed -> the tensor does not depend on f
         T2 = gen.dense(gen.tt(n, rho, tseed + 1, 'gauss'))
-        Y2, _, _, _ = _run(T2, Y0, cache, nswp=0, dr_min=dr_min, dr_max=dr_max, m_cache_scale=HUGE)
+        Y2, _, _, _ = _run(T2, Y0, cache, nswp=0, dr_min=dr_min, dr_max=dr_max, m_cache_scale=HUGE, **_xkw(opt))
         if any(not np.array_equal(A, B) for A, B in zip(Y, Y2)):
             return FAIL('nswp = 0: result depends on the objective')
     return PASS
@@ -322,11 +362,11 @@ def _consistent(info, kw):
 
 
 @clause('C06.cross.stop_thresholds', funcs=FUNCS)
-def stop_thresholds(n, rho, r0, kind, dr_min, dr_max, nswp, tseed, yseed, cache):
+def stop_thresholds(n, rho, r0, kind, dr_min, dr_max, nswp, tseed, yseed, cache, opt=None):
     """Thresholds just above / below each reported e and e_vld: stop at the first sweep where one holds."""
-    T, Y0 = _problem(n, rho, r0, kind, tseed, yseed)
-    I_vld, y_vld = _vld(T, n, tseed)
-    base = dict(dr_min=dr_min, dr_max=dr_max, m_cache_scale=HUGE, I_vld=I_vld, y_vld=y_vld)
+    T, Y0 = _problem(n, rho, r0, kind, tseed, yseed, opt)
+    I_vld, y_vld = _vld(T, n, tseed, opt=opt)
+    base = dict(dr_min=dr_min, dr_max=dr_max, m_cache_scale=HUGE, I_vld=I_vld, y_vld=y_vld, **_xkw(opt))
     Y, iref, f, traj = _run(T, Y0, cache, nswp=nswp, **base)
     if iref['stop'] != 'nswp' or len(traj) != nswp:
         return FAIL(f"reference run: stop {iref['stop']}, {len(traj)} sweeps")
@@ -371,11 +411,11 @@ def stop_thresholds(n, rho, r0, kind, dr_min, dr_max, nswp, tseed, yseed, cache)
 
 
 @clause('C06.cross.priority', funcs=FUNCS)
-def priority(n, rho, r0, kind, dr_min, dr_max, nswp, tseed, yseed):
+def priority(n, rho, r0, kind, dr_min, dr_max, nswp, tseed, yseed, opt=None):
     """Several criteria hold at the same sweep: conv > cb > e_vld > e > nswp, exactly one documented reason."""
-    T, Y0 = _problem(n, rho, r0, kind, tseed, yseed)
-    I_vld, y_vld = _vld(T, n, tseed)
-    base = dict(dr_min=dr_min, dr_max=dr_max, I_vld=I_vld, y_vld=y_vld)
+    T, Y0 = _problem(n, rho, r0, kind, tseed, yseed, opt)
+    I_vld, y_vld = _vld(T, n, tseed, opt=opt)
+    base = dict(dr_min=dr_min, dr_max=dr_max, I_vld=I_vld, y_vld=y_vld, **_xkw(opt))
     _, iref, _, traj = _run(T, Y0, True, nswp=nswp, m_cache_scale=HUGE, **base)
     _, i0, _, _ = _run(T, Y0, True, nswp=0, m_cache_scale=HUGE, **base)
     evld0 = i0['e_vld']
@@ -422,13 +462,19 @@ def priority(n, rho, r0, kind, dr_min, dr_max, nswp, tseed, yseed):
 
 
 @clause('C06.cross.conv_consistent', funcs=('cross.cross',))
-def conv_consistent(n, rho, r0, kind, dr_min, dr_max, nswp, tseed, yseed, scale):
-    """With a cache: 'conv' exactly at the first sweep end with m_cache > m_cache_scale * m (else 'nswp')."""
-    T, Y0 = _problem(n, rho, r0, kind, tseed, yseed)
-    base = dict(dr_min=dr_min, dr_max=dr_max)
+def conv_consistent(n, rho, r0, kind, dr_min, dr_max, nswp, tseed, yseed, scale, opt=None):
+    """With a cache: 'conv' exactly at the first sweep end with m_cache > m_cache_scale * m (else 'nswp');
+    scale = None: the argument is left out (documented default 5)."""
+    T, Y0 = _problem(n, rho, r0, kind, tseed, yseed, opt)
+    base = dict(dr_min=dr_min, dr_max=dr_max, **_xkw(opt))
     _, iref, _, traj = _run(T, Y0, True, nswp=nswp, m_cache_scale=HUGE, **base)
-    reason, sweep = _predict(traj, -1, nswp=nswp, conv_scale=scale)
-    Y, info, f, log = _run(T, Y0, True, nswp=nswp, m_cache_scale=scale, **base)
+    if scale is None:
+        reason, sweep = _predict(traj, -1, nswp=nswp, conv_scale=5)
+        Y, info, f, log = _run(T, Y0, True, nswp=nswp, **base)
+        scale = 5
+    else:
+        reason, sweep = _predict(traj, -1, nswp=nswp, conv_scale=scale)
+        Y, info, f, log = _run(T, Y0, True, nswp=nswp, m_cache_scale=scale, **base)
     msg = _contract(Y, info, f, n, None, True)
     if msg:
         return FAIL(msg)
@@ -545,6 +591,82 @@ def cases(tier, seed):
         yield 'C06.cross.priority', dict(nc, nswp=3)
         for scale in (0, 1, 2, 5):
             yield 'C06.cross.conv_consistent', dict(nc, nswp=4, scale=scale)
+    # ------------------------------------------------------------ parameter / regime coverage (own generator)
+    g2 = gen.rng('C06cov', seed)
+
+    def cfg(n, rho, r0, a, b, cache, opt=None, kind='gauss', nswp=2):
+        c = dict(n=n, rho=rho, r0=r0, kind=kind, dr_min=a, dr_max=b, nswp=nswp, tseed=int(g2.integers(1 << 30)),
+                 yseed=int(g2.integers(1 << 30)), cache=cache)
+        if opt:
+            c['opt'] = opt
+        return c
+
+    def emit(c, which, some_parts=None):
+        """which: subset of 'b' budget, 'f' func, 'c' callback, 'n' nswp, 't' thresholds, 'p' priority, 'v' conv."""
+        if 'b' in which:
+            size = int(np.prod(c['n'])) * (1 + c['dr_max'])
+            parts = 1 if size <= 12 else (3 if size <= 30 else (6 if size <= 80 else 12))
+            for part in range(parts):
+                if some_parts is None or big or part % max(1, parts // some_parts) == 0:
+                    yield 'C06.cross.budget_every_m', dict(c, part=part, parts=parts)
+        if 'f' in which:
+            yield 'C06.cross.func_none_every_k', c
+        if 'c' in which:
+            yield 'C06.cross.cb_every_sweep', c
+        if 'n' in which:
+            for nswp in ((0, 1, 2, 3) if big else (0, 2)):
+                yield 'C06.cross.stop_nswp', dict(c, nswp=nswp)
+        if 't' in which:
+            yield 'C06.cross.stop_thresholds', dict(c, nswp=3)
+        nc = {q: v for q, v in c.items() if q != 'cache'}
+        if 'p' in which:
+            yield 'C06.cross.priority', dict(nc, nswp=3)
+        if 'v' in which:
+            for scale in (None, 5):
+                yield 'C06.cross.conv_consistent', dict(nc, nswp=4, scale=scale)
+
+    two = [[3, 4], [2, 3, 2]]
+    some = two + ([[2, 2], [4, 1, 3], [4, 4]] if big else [])
+    k = 0
+    # (a) accuracy parameters / iteration limit of the row selection
+    for o in ({'tau': 1.0}, {'tau': 3.0}, {'tau0': 2.0}, {'k0': 1}, {'tau': 1.01, 'tau0': 1.0, 'k0': 2}):
+        for n in some:
+            k += 1
+            yield from emit(cfg(n, (8, 2)[k % 2], 1 + k % 2, 1, 2, bool(k % 2), o), 'bfcnt' + ('pv' if big else ''))
+    # (b) growth limits: dr_min >= 2 (clipped on nearly square unfoldings), dr_min = 0 < dr_max, wide gaps
+    for (a, b) in ((2, 2), (2, 3), (0, 1), (0, 2), (3, 3)) + (((1, 5), (4, 6), (0, 5)) if big else ()):
+        for n in [[2, 2]] + some:
+            k += 1
+            yield from emit(cfg(n, (8, 2)[k % 2], 1 + k % 2, a, b, bool(k % 2)), 'bfcn' + ('tpv' if big else ''))
+    # (c) scale of the objective (relative criteria), the zero objective
+    for sc in (1e-8, 1e8, 0.0) + ((1e-4, 1e4, 1e-30, 1e30) if big else ()):
+        for n in some:
+            k += 1
+            yield from emit(cfg(n, (8, 2)[k % 2], 2, 1, 1 + k % 2, bool(k % 2), {'scale': sc}),
+                            'bfcn' + ('t' if sc else '') + ('pv' if big and sc else ''))
+    # (d) more modes, larger modes
+    for n in ([2, 2, 2, 2], [2, 1, 2, 2, 2], [12, 2], [2, 9, 2]) + (([2] * 6, [3, 2, 2, 3], [20, 3], [1, 1, 1, 1]) if big else ()):
+        for cache in (False, True):
+            k += 1
+            yield from emit(cfg(n, (8, 2)[k % 2], 1 + k % 2, k % 2, 1, cache), 'bfcn' + ('tpv' if big else ''), some_parts=2)
+    # (e) pre-filled cache, (f) budget given as float / NumPy integer, (i) memory layout of the start,
+    # (k) ragged and over-sized rank profiles of the start
+    for n in some + [[2, 2]]:
+        k += 1
+        d = len(n)
+        yield from emit(cfg(n, 8, 2, 1, 1, True, {'prefill': 5}), 'bf')
+        yield from emit(cfg(n, 2, 1, 1, 2, True, {'prefill': 40}), 'bf' if big else 'f')
+        yield from emit(cfg(n, 8, 2, 1, 1, bool(k % 2), {'mform': ('float', 'np')[k % 2]}), 'b')
+        yield from emit(cfg(n, 8, 2, 0, 1, bool(k % 2), {'order': ('F', 'V')[k % 2]}), 'bf')
+        yield from emit(cfg(n, 2, [1] + [5, 2, 3, 4][:d - 1] + [1], k % 2, 1, bool(k % 2)), 'bfc')
+    # (g) validation data as nested lists, (h) callbacks returning None / 0, (j) m_cache_scale left at its default
+    for n in two:
+        k += 1
+        yield from emit(cfg(n, 8, 2, 1, 1, bool(k % 2), {'vform': 'list'}), 'tp')
+        for ce in ('none', 'zero'):
+            yield from emit(cfg(n, 8, 2, 1, 1, ce == 'zero', {'cb_else': ce}), 'c')
+        for (a, b) in ((0, 0), (1, 1)):
+            yield from emit(cfg(n, 2, 2, a, b, True), 'v')
     g = gen.rng('C06v', seed)
     for n in ([3, 3], [2, 3, 2]):
         for bits in range(64):
